@@ -49,6 +49,18 @@ CLAIMED.update({
          BASE_NOTE + "Collision resistance of SHA-512 mod q is not assumed anywhere; 32-bit counter width (wasm32) cannot be exhibited in this sandbox."),
 })
 
+
+CLAIMED.update({
+ "C17": ("Theorems (Properties/C17.v): the derivation is prefix-stable for every seed/count, the i-th generator depends only on (seed,i), every generator is a subgroup member >= 2 for every safe-prime set (Fermat), the derivation hashes exactly seed||'ggen'||(index,count) pairs (appended on retries), mod p, cofactor power, accept iff >= 2; never Err; kernel-computed: first 32 generators of P2048 for the empty seed are pairwise distinct and differ from g (and a kernel-computed COLLISION on p=2039 shows distinctness is not a consequence of the code). Tie: Ctx::generators == Gallina derivation for seeds ''/short/1kB and counts up to 64 (2000 thorough) at 2048 bits, retry branch on small sets.",
+         BASE_NOTE + "Distinctness/seed-dependence/no-known-relations rest on SHA-512 (not assumed; computed for concrete seeds, observed otherwise). ristretto: recomputed from SHAKE-256 (hashlib) + dalek from_uniform_bytes (oracle)."),
+ "C18": ("Theorems (Properties/C18.v): for EVERY byte stream the num-bigint samplers return exponents in [0,q), plaintexts in [0,q-2], elements that are members, never panic; every value below the bound is reachable; one attempt's value together with the discarded bits determines the consumed bytes (uniform given uniform bytes); each draw consumes a fresh non-empty piece of the stream; gen_permutation is Fisher-Yates on in-range index draws and the map draws->permutation is injective (uniform given uniform draws). Tie: value AND bytes consumed of rnd_exp/rnd_plaintext/rnd/gen_permutation equal the byte-level model for exhaustive bit patterns on tiny q and random scripts up to 2048 bits.",
+         BASE_NOTE + "OS entropy is not modelled (freshness observed at 2048 bits/ristretto); malachite's sampler is opaque (bounds checked over thousands of seeds); exact uniformity of rand's widening-multiply rejection is not proved. Model follows the repaired sampler bounds (fix: commit)."),
+ "C19": ("Theorems (Properties/C19.v): in the split/join schedule model of an indexed parallel map every schedule returns what the sequential iterator returns (pure items), success and the successful value of collect::<Result> are schedule independent, no schedule introduces a panic; randomised closures are covered because C02/C03/C05 quantify over all draws. Tie: a corpus of deterministic operations executed by the sequential and the rayon harness builds under 1,2,3,7,16 threads must be identical; proofs/shuffles cross the two builds both ways; a sample of rayon outputs is compared with the Gallina model.",
+         BASE_NOTE + "That rayon implements the split/join semantics is trusted."),
+ "C20": ("Theorems (Properties/C20.v): base64 STANDARD_NO_PAD model: decode(encode bs)=bs, encode injective, decode accepts ONLY canonical unpadded encodings (padding, non-alphabet, length 1 mod 4, non-zero trailing bits rejected), never panics; wrapper model over the underlying library as oracle: keys/signatures round-trip through bytes and strings and a signature made with a round-tripped key verifies (given a complete scheme, as a premise); both frontends agree whenever their primitives do. Tie: every wrapper entry point of both frontends vs the model with primitives answered by direct ed25519-zebra / ed25519-dalek calls; cross-frontend matrix; all single-bit flips of signature and key; malformed strings.",
+         BASE_NOTE + "Ed25519 itself (unforgeability, curve arithmetic) is not modelled: bit-flip rejection is observed, not proved."),
+})
+
 src_commits = subprocess.run(["git", "-C", "/repo", "log", "--format=%h %s"], capture_output=True, text=True).stdout.splitlines()
 hooks = [l.split()[0] for l in src_commits if "verif hook" in l]
 man = {
